@@ -1960,8 +1960,11 @@ class FileBuilder:
                 FileBuilder._try_to_remove_file(filename)
         FileBuilder._remove_empty_dirs(list(dirs_to_remove))
 
-        FileBuilder._create_dirs(self._old_cache.created_dirs())
+        # Restore the files first. Otherwise, if a file we moved aside is
+        # located where the previous build had created a directory, recreating
+        # that directory would prevent us from restoring the file.
         self._backups.restore_all()
+        FileBuilder._create_dirs(self._old_cache.created_dirs())
         logger.info('Rolled back build operation')
 
     def _build(self, cache_filename, func, args, kwargs):
